@@ -2630,6 +2630,10 @@ def wholetable(pid):
                             nr += 1
                             if ps[0] != "const:0" and re.match(r"^const:\d+$", ps[0]):
                                 res.fail(Finding(res.rule, "R-WHOLE/%s/range-start" % f.path, "a counted read / initialisation loop in %s runs over %s..%s: the first %s element(s) are never read or written" % (f.path.split("::")[-1], ps[0][6:], ps[1][:50], ps[0][6:]), f, c.term["span"]))
+                            elif f.path.endswith("::open_internal") and "Chain::len(" in ps[1] and re.search(r"\bmin\(|Ord::min|cmp::min|saturating_sub|stream_len", ps[1]):
+                                # a table read from a chain (the MiniFAT) is read as long as the chain is: what the root
+                                # entry says the mini stream needs is what strict validation compares it WITH
+                                res.fail(Finding(res.rule, "R-WHOLE/%s/chain-table-read-capped" % f.path, "open_internal reads only %s entries of a table that lies in a chain: the entries beyond are never seen, so the check that refuses an over-long table under strict validation (and the truncation under permissive validation) has nothing left to look at" % ps[1][:90], f, c.term["span"]))
                             elif f.path.endswith("SectorInit::initialize") and "Sector::len(param:sector)" not in ps[1]:
                                 res.fail(Finding(res.rule, "R-WHOLE/%s/init-count-not-from-sector" % f.path, "SectorInit::initialize fills %s units: the count does not come from the sector's own length, so a sector of the other size is only partly initialised (the rest keeps whatever the file held there)" % ps[1][:60], f, c.term["span"]))
                             else:
